@@ -72,6 +72,12 @@ def handle : List String → Option String
     let dim ← dim.toNat?
     let xs ← parseRats? xs; let rows ← parseRows? rows; let xnew ← parseRats? xnew
     pure (showExc (barycentric xs rows dim xnew))
+  | ["c20", "nakspline", dim, xs, rows, xnew] => do
+    let dim ← dim.toNat?
+    let xs ← parseRats? xs; let rows ← parseRows? rows; let xnew ← parseRats? xnew
+    match nakSpline xs rows dim xnew with
+    | .error e => pure ("err " ++ showErr e)
+    | .ok (c, r) => pure s!"ok {showBool c} {showRows r}"
   | ["c20", "normsq", rows] => do
     let rows ← parseRows? rows
     pure (showRats (rows.map normSq))
@@ -85,10 +91,14 @@ def handle : List String → Option String
     let dim ← dim.toNat?
     let xs ← parseRats? xs; let rows ← parseRows? rows; let xnew ← parseRats? xnew
     pure (showExc (linear xs rows dim xnew))
-  | ["c20", "dops", sats] => do
+  | ["c20", "dopguard"] =>
+    some (s!"{String.ofList (dopGuardSource.toList.map (fun c => if c = ' ' then '_' else c))} " ++
+      (match dopCondLimit with | none => "none" | some l => showRat l))
+  | ["c20", "dops", cond, sats] => do
+    let cond ← parseRat? cond
     let rows ← parseRows? sats
     let sats ← rows.mapM parseSat?
-    match computeDops sats with
+    match computeDopsGuarded dopCondLimit cond sats with
     | none => pure "singular"
     | some d => pure s!"ok {showRat d.gdop2} {showRat d.pdop2} {showRat d.tdop2} {showRat d.hdop2} {showRat d.vdop2}"
   | ["c20", "plate", model, plate, p, x, y, z] => do
